@@ -771,6 +771,8 @@ class LogicalLinkController(object):
             if self.snl.get(name) is not None:
                 raise err.Error(errno.EADDRINUSE)
             addr = wks_map.get(name)
+            if addr is not None and self.sap[addr] is not None:
+                raise err.Error(errno.EADDRINUSE)
             if addr is None:
                 try:
                     addr = 16 + self.sap[16:32].index(None)
